@@ -63,6 +63,7 @@ class Event:
 class Summary:
     writes: Dict[str, str] = field(default_factory=dict)     # param -> how
     returns: Set[str] = field(default_factory=set)           # params that may be returned (aliased)
+    dtype_returns: Set[str] = field(default_factory=set)     # params whose dtype the returned value inherits
 
 
 class MutationAnalysis:
@@ -170,7 +171,7 @@ class MutationAnalysis:
             for q, fi in self.funcs.items():
                 s, ev = self._analyse(fi)
                 old = self.summaries[q]
-                if s.writes.keys() != old.writes.keys() or s.returns != old.returns:
+                if s.writes.keys() != old.writes.keys() or s.returns != old.returns or s.dtype_returns != old.dtype_returns:
                     self.summaries[q] = s
                     changed = True
                 self.events[q] = ev
@@ -528,6 +529,9 @@ class MutationAnalysis:
                 scan_expr(node.value)
                 if summary is not None:
                     summary.returns |= set(self._taint(fi, node.value, st))
+                    dr = self._dtype_roots(fi, node.value, st)
+                    if dr:
+                        summary.dtype_returns |= {r_ for r_ in _unbox(dr) if r_ in self.tracked_params.get(fi.qualname, [])}
             return st
         if n.kind == "raise":
             return st
@@ -547,6 +551,14 @@ class MutationAnalysis:
                 roots = st.get(t.id, frozenset())
                 if roots:
                     emit("write", roots, node, "augmented assignment updates the argument's array in place")
+                # in-place true division (or an in-place operation with a float operand) on an array whose dtype follows an
+                # argument: with an integer argument numpy cannot store the float result (UFuncTypeError) - or truncates it
+                like = self._like.get(t.id) or (st.get(t.id) if st.get(t.id) else None)
+                if like and (isinstance(node.op, ast.Div) or self._is_float_expr(fi, node.value, self.float_names.get(fi.qualname, set()))) \
+                        and not isinstance(node.op, (ast.FloorDiv,)):
+                    if self._array_valued(fi, t.id):
+                        emit("dtype", frozenset(_unbox(like)), node,
+                             "in-place float operation on an array that inherits the argument's dtype (an integer argument raises UFuncTypeError / truncates)")
             else:
                 store_target(t, node.value)
             return st
@@ -631,8 +643,41 @@ class MutationAnalysis:
                         a, b = self._dtype_roots(fi, e.args[0], st, depth + 1), self._dtype_roots(fi, e.args[1], st, depth + 1)
                         return ((a or frozenset()) | (b or frozenset())) if (a and b) else None
                     return self._dtype_roots(fi, e.args[0], st, depth + 1)
-            return None
+                return None
+            # a package function whose result inherits the dtype of some of its parameters
+            out = frozenset()
+            for _how, callee in self._callees(fi, e):
+                sm = self.summaries.get(callee.qualname)
+                if not sm or not sm.dtype_returns:
+                    return None
+                amap = self._arg_map(callee, e)
+                for p_ in sm.dtype_returns:
+                    if p_ not in amap:
+                        return None
+                    r_ = self._dtype_roots(fi, amap[p_], st, depth + 1)
+                    if not r_:
+                        return None
+                    out |= r_
+            return out or None
         return None
+
+    def _array_valued(self, fi: FuncInfo, name: str) -> bool:
+        """A local that is (syntactically) bound to an array-producing expression somewhere in the function: a call or a
+        subscript / arithmetic on arrays - not a plain scalar accumulator (`total /= n` on a Python float is fine)."""
+        for n in ast.walk(fi.node):
+            if isinstance(n, ast.Assign) and any(isinstance(t_, ast.Name) and t_.id == name for t_ in n.targets):
+                v = n.value
+                if isinstance(v, ast.Call):
+                    r = self.lk.resolve(fi.module, v.func)
+                    nm = getattr(r.obj, "__name__", "") if r.kind == "dep" else ""
+                    if nm in ("sum", "mean", "max", "min", "amax", "amin", "dot", "len", "float", "int", "median"):
+                        return False
+                    return True
+                if isinstance(v, (ast.BinOp, ast.Subscript)):
+                    tp = self.lk.expr_type(fi.module, fi.node, v)
+                    np_ = deps.import_dep("numpy")
+                    return tp is np_.ndarray
+        return False
 
     def _like_roots(self, fi: FuncInfo, value, st) -> Optional[FrozenSet[str]]:
         """Roots whose dtype the value inherits (np.*_like(arg), arg.copy(), np.array(arg) without dtype)."""
